@@ -515,6 +515,13 @@ def run_check(mod, tier, seed, replay=None):
     if rc == 0:
         print(f'OK property={prop} tier={tier} theorems={len(discharged)}/{len(theorems)} cases={len(cases)} '
               f'lines={trace_lines} wall={time.time() - t0:.1f}s')
+        # the shard traces are only of interest after a failure (the replay file carries the failing case itself)
+        import glob
+        for f in glob.glob(os.path.join(WORK, prop, '*.trace')):
+            try:
+                os.remove(f)
+            except OSError:
+                pass
     return rc
 
 
